@@ -47,8 +47,8 @@ class C15(object):
     tolerances = {'joint entries': '1e-12', 'objective = definition': '1e-9', 'bounds on optimised values': '1e-4'}
     exhaustive = {}
     case_timeout = 40
-    modelled = ("the Markov-variable optimisers (Wyner, exact common information) rebuild variables from W with their own "
-                "construct_joint; they are checked by the oracle only (properness, Markov structure, objective)")
+    modelled = ("the Markov-variable optimisers (Wyner, exact common information) are compared with the same model construction "
+                "followed by their axis permutation; the optimisers' searches are not modelled")
 
     def gen(self, rng, tier):
         n_cases = 70 if tier == 'quick' else 900
@@ -163,6 +163,25 @@ class C15(object):
             return
         pmf = np.asarray(opt._pmf, dtype=float)
         n0 = pmf.ndim if not markov else None
+        if markov:
+            # Markov-variable optimisers keep (X0, Z) as the base, add W with parents (X0, Z) and one auxiliary variable per
+            # remaining group with parents (Z, W), then move the Z and W axes to the end: the same model construction
+            # followed by that axis permutation
+            sizes = list(pmf.shape)
+            ftab = [[list(map(int, idx)), f2bits(v)] for idx, v in np.ndenumerate(pmf)]
+            mj = drv.call('auxjoint', [sizes, ftab, [[b, k] for b, k in avs], [f2bits(v) for v in x]])
+            shape0 = sizes + [k for _, k in avs]
+            model = np.zeros(shape0)
+            for idx, v in mj:
+                model[tuple(idx)] = bits2f(v)
+            model = np.moveaxis(np.moveaxis(model, 1, -1), 1, -1)
+            if model.shape != joint.shape:
+                r.mismatch = 'construct_joint(x) has shape %s, the model %s' % (list(joint.shape), list(model.shape))
+            else:
+                dev = float(np.abs(model - joint).max())
+                r.detail['max_dev'] = dev
+                if dev > 1e-12:
+                    r.mismatch = 'construct_joint(x) differs from the model by %r' % dev
         if not markov:
             # ---- model: same input tensor, same auxiliary structure, same parameter vector
             sizes = list(pmf.shape)
